@@ -458,6 +458,7 @@ def run(chk):
     _accumfast_rule(chk, fn)
     _grammarcache_rule(chk, prog, tu)
     _endpos_rule(chk, prog, tu)
+    _capscope_rule(chk, fn)
     cfn = prog.need_func("peg_compile1", tu)
     chk.analysed(cfn)
     _restore_rule(chk, cfn, "C12-SCOPE", "grammar",
@@ -573,3 +574,51 @@ def _endpos_rule(chk, prog, tu):
                               "matches there for patterns such as -1 or \"\" - so (peg/find -1 \"abc\") is nil while matching at 3 succeeds" % (
                                   fn.name, cond.text()[:40]))
     chk.floor(rule, 3, n)
+
+
+def _capscope_rule(chk, fn):
+    """A combinator that post-processes `the captures of its sub-pattern` saves the capture count first (cap_save) and
+    owns only what lies above that mark.  Reading the capture array without comparing against the mark picks up a capture
+    that was made before the combinator, by an unrelated part of the grammar."""
+    rule = "C12-CAPSCOPE"
+    chk.rule(rule, "a combinator reads `the last capture` of its sub-pattern only above its own saved capture mark")
+    n = 0
+    IN = T = None
+    sites = []
+    for x in fn.nodes:
+        if x.k == "sub" and any(y.k == "mem" and y.field == "data" for y in x.kids[0].walk()) and \
+                any(y.k == "mem" and y.field == "captures" for y in x.kids[0].walk()) and \
+                any(y.k == "mem" and y.field == "count" for y in x.kids[1].walk()):
+            sites.append(x)
+    if not sites:
+        raise AnalysisBroken("peg_rule: no read of the last capture found")
+    IN, T = flow.condition_facts(fn)
+    # locals that hold a saved capture count (`int32_t old_cap = s->captures->count`)
+    marks = set(v.name for v in fn.nodes if v.k == "vardecl" and v.kids and strip_casts(v.kids[0]).k == "mem" and strip_casts(v.kids[0]).field == "count"
+                and any(y.k == "mem" and y.field == "captures" for y in v.kids[0].walk()))
+    seen = set()
+    for x, S in flow.states_at(fn, IN, T):
+        if x not in sites or x.id in seen:
+            continue
+        seen.add(x.id)
+        n += 1
+        chk.instance(rule)
+        ok = bool(S)
+        for ps in S:
+            good = False
+            for (op, l, r, toks, ln, rn) in ps:
+                both = [e for e in (ln, rn) if e is not None]
+                if any(y.k == "mem" and y.field == "count" for e in both for y in e.walk()) and \
+                        any((y.k == "mem" and y.field == "cap") or (y.k == "ref" and y.name in marks) for e in both for y in e.walk()):
+                    good = True
+            if not good:
+                ok = False
+        cases = enclosing_cases(x) or ["?"]
+        if ok:
+            chk.ok(rule, "%s: last capture read only when the count is above the saved mark" % cases[0])
+        else:
+            chk.violation(rule, "peg.c", "peg_rule", "%s:last-capture" % cases[0], x.loc,
+                          "`%s` is read on a path that has not compared the capture count with the mark saved before the sub-pattern ran: "
+                          "when the sub-pattern captured nothing, a capture made earlier in the match is used instead "
+                          "((* (<- \"a\") (/ \"b\" {\"a\" 1})) on \"ab\" yields 1)" % x.text()[:50])
+    chk.floor(rule, 2, n)
